@@ -118,6 +118,14 @@ Proof.
   split; [exact H2 |]. eapply spec_run_log. apply pf_kernel_public2; lia.
 Qed.
 
+Lemma peak_filling_sequence_rejected_final : pf_seq_data_len_is_int = false.
+Proof. exact pf_sequence_rejected. Qed.
+
+Lemma peak_filling_sequence_final k uniq size left_pad right_pad h (o : list bool) :
+  0 <= k -> 2 <= uniq <= k + 2 -> 1 <= size -> 0 <= left_pad <= 1 -> 0 <= right_pad <= 1 -> 0 <= h ->
+  all_okb (logof (pf_seq_kernel_call k uniq size left_pad right_pad h o)) = true.
+Proof. intros. eapply spec_run_log. apply pf_seq_kernel_public; assumption. Qed.
+
 Lemma rolling_std_public_final n half_window (o : list bool) :
   1 <= n -> 0 <= half_window -> all_okb (logof (rolling_std_call n half_window o)) = true.
 Proof. intros. eapply spec_run_log. eapply rolling_std_public; eauto. Qed.
